@@ -33,8 +33,8 @@ theorem tc_list_helpers_present :
 ones the oracle has representatives for (harness table `ERROR_KINDS`: for each
 of them the kinds of report the boundary stream must produce on every run —
 measured there, a kind that is not reached breaks the tie;
-`error_constant_uses_context` needs a runtime with a context type and has
-none). A new constructor breaks this theorem until a representative — with
+`error_constant_uses_context` needs a runtime with a context type: the
+oracle's second runtime). A new constructor breaks this theorem until a representative — with
 every list it prints empty, too — is added. -/
 theorem error_constructors_represented :
     errorFns =
